@@ -134,7 +134,13 @@ fn default_job(kind: Kind, depth: usize) -> JobOut {
         out.fail(Violation::new(PROP, &cfg, &[], &format!("default-{}", class)).obs(got).exp(want).det(format!("{}::default() must behave as {}", kind.rust_type(), cfg.rust_new())));
         return out;
     }
-    let alpha = generic_alphabet(kind, false);
+    let mut alpha = generic_alphabet(kind, false);
+    // negative and zero values too: a default built with a wrong sentinel / filler shows only there
+    if kind.has_scalar() {
+        alpha.extend([Op::S(-5.0), Op::S(0.0)]);
+    } else {
+        alpha.push(Op::B(Bar { o: -3.0, h: -1.0, l: -6.0, c: -2.0, v: 2.0 }));
+    }
     let mut ops: Vec<Op> = vec![];
     for_each_seq_exact(alpha.len(), depth, |seq| {
         ops.clear();
